@@ -229,3 +229,32 @@ CHECKS["C06"] = {
 }
 
 NOT_YET = {}
+
+
+# ---- later updates (kept as replacements on the joined strings so that each one is checked to apply) -----------------------------
+def _upd(pid, field, old, new):
+    assert old in CHECKS[pid][field], (pid, field, old[:40])
+    CHECKS[pid][field] = CHECKS[pid][field].replace(old, new)
+
+
+_upd("C03", "text", "Chaining associativity is proved for 216 operand triples by computation (general statement kept as a Definition).",
+     "Chaining is associative in general (C03_chain_assoc: same nodes, edges, entries and exits up to a renaming of the inserted Concat ids that fixes every operand node, "
+     "whenever both sides are built). The in-place update (&=) is the merge when the result is acyclic and the identity when it is rejected; list operands of merge are flattened. "
+     "C03_order_is_executable links the computed order to C02's model (any ModelSem model laid out on it is well formed).")
+_upd("C03", "note", "Not decided by proof: general chain associativity (bounded), FrozenModel",
+     "Not decided by proof: that the two chain orders are accepted or rejected together (swept for 216 triples), FrozenModel")
+_upd("C03", "technique", "vm_compute for the bounded associativity sweep and the refutation witness)",
+     "a renaming argument for associativity; vm_compute for the acceptance sweep and the refutation witness)")
+_upd("C05", "note", "and the use of targets as forced feedback in fit/train, are decided by the oracle only (partial).",
+     "and the use of targets as forced feedback in OFFLINE fit, are decided by the oracle only; teacher-forced ONLINE training of a model is inside the model "
+     "(coq/model/TrainModel.v: C05_train_forced_array_*, C05_train_forced_teacher_*, C05_train_unforced_*, C05_train_forced_states_indep) and tied by its own correspondence "
+     "(tools/props/trainmodel.py). The ESN convenience node with feedback is one of the scenario families.")
+_upd("C07", "note", "online learning rules themselves are C10's model - here the training half is the generic fold law plus the implementation oracle (partial).",
+     "online training of a MODEL (forward + RLS/LMS on gated steps, forcing on/off, teacher nodes) is modelled in coq/model/TrainModel.v: C07_modeltrain_app/_chunking (unforced, cut at a multiple "
+     "of learn_every), C07_modeltrain_forced_app_when_cut_agrees, with refutation witnesses for both hypotheses, tied by the Model.train correspondence; from_state / stateless training and the ESN "
+     "node's hidden memory are decided by the oracle only.")
+_upd("C02", "note", "harness tools/props/c02.py + tools/vlib/scen.py; float64 exact on small dyadic data.",
+     "harness tools/props/c02.py + tools/vlib/scen.py (histories include name-keyed mappings written in reverse key order, integer-typed inputs, runs over a list of sequences, graphs assembled "
+     "in place with &=, and the ESN convenience node as a two-node model); float64 exact on small dyadic data.")
+_upd("C08", "note", "Hidden memory is mirrored, not repaired.",
+     "Hidden memory is mirrored, not repaired. Histories include the ESN convenience node (run on copies, states carried back) and runs over a list of sequences.")
